@@ -338,6 +338,9 @@ pub fn families(kind: Kind, tier: Tier) -> Vec<Box<dyn Family>> {
             v.push(Box::new(nested_loops(false)));
             v.push(Box::new(comp_over_level2()));
             v.push(Box::new(many_ranges()));
+            v.push(Box::new(overlap_frames()));
+            v.push(Box::new(EpsProbe { base: Box::new(level3_slice(false)), stride: 7, range: (2, 2) }));
+            v.push(Box::new(EpsProbe { base: Box::new(level3_pairs(false)), stride: 3, range: (1, 1) }));
         }
         (_, Tier::Thorough) => {
             v.push(Box::new(big_classics()));
@@ -359,6 +362,9 @@ pub fn families(kind: Kind, tier: Tier) -> Vec<Box<dyn Family>> {
             v.push(Box::new(level3_pairs(true)));
             v.push(Box::new(nested_loops(true)));
             v.push(Box::new(many_ranges()));
+            v.push(Box::new(overlap_frames()));
+            v.push(Box::new(EpsProbe { base: Box::new(level3_slice(false)), stride: 1, range: (2, 2) }));
+            v.push(Box::new(EpsProbe { base: Box::new(level3_pairs(true)), stride: 2, range: (1, 1) }));
         }
     }
     v
